@@ -16,6 +16,11 @@ fn usage() -> ! {
 }
 
 fn main() {
+    // Initialise remoc's process-wide thread-availability probe outside any paused-clock runtime.
+    {
+        let rt = tokio::runtime::Builder::new_current_thread().build().unwrap();
+        rt.block_on(remoc::exec::are_threads_available());
+    }
     let args: Vec<String> = std::env::args().collect();
     if args.len() < 3 {
         usage();
@@ -49,6 +54,8 @@ fn main() {
                 "C01" => props::c01::run(tier, seed),
                 "C02" => props::c02::run(tier, seed),
                 "C03" => props::c03::run(tier, seed),
+                "C04" => props::c04::run(tier, seed),
+                "C05" => props::c05::run(tier, seed),
                 "C06" => props::c06::run(tier, seed),
                 "C07" => props::c07::run(tier, seed),
                 "C08" => props::c08::run(tier, seed),
@@ -62,6 +69,7 @@ fn main() {
             };
             std::process::exit(code);
         }
+        "debugdet" => { debug_det(&args[2], std::env::var("VERIF_THREADS").ok().and_then(|s| s.parse().ok()).unwrap_or(1)); }
         "replay" => {
             std::process::exit(replay(&args[2]));
         }
@@ -90,6 +98,8 @@ fn replay(path: &str) -> i32 {
             }
             "C02" => all.extend(props::c02::all_scenarios(tier)),
             "C03" => all.extend(props::c03::all_scenarios(tier)),
+            "C04" => all.extend(props::c04::all_scenarios(tier)),
+            "C05" => all.extend(props::c05::all_scenarios(tier)),
             "C06" => all.extend(props::c06::all_scenarios(tier)),
             "C07" => all.extend(props::c07::all_scenarios(tier)),
             "C08" => all.extend(props::c08::all_scenarios(tier)),
@@ -137,3 +147,38 @@ fn replay(path: &str) -> i32 {
     code
 }
 
+
+#[allow(dead_code)]
+pub fn debug_det(id: &str, threads: usize) {
+    let all = props::c04::all_scenarios(Tier::Quick);
+    let scn = all.into_iter().find(|s| s.id() == id).expect("scenario");
+    let hs: Vec<_> = (0..threads)
+        .map(|t| {
+            let scn = scn.clone();
+            std::thread::spawn(move || {
+                let mut counts = std::collections::BTreeMap::new();
+                let mut base: Option<Vec<String>> = None;
+                let mut shown = 0;
+                for _i in 0..300 {
+                    let (out, _) = world::execute(&*scn, &[], 1);
+                    *counts.entry(out.trace.len()).or_insert(0usize) += 1;
+                    match &base {
+                        None => base = Some(out.schedule.clone()),
+                        Some(b) => {
+                            if let Some(k) = (0..b.len().min(out.schedule.len())).find(|k| b[*k] != out.schedule[*k]) {
+                                if shown < 3 && t == 0 {
+                                    shown += 1;
+                                    eprintln!("first diff at step {k}: base {:?} vs {:?}", &b[k.saturating_sub(3)..(k + 3).min(b.len())], &out.schedule[k.saturating_sub(3)..(k + 3).min(out.schedule.len())]);
+                                }
+                            }
+                        }
+                    }
+                }
+                counts
+            })
+        })
+        .collect();
+    for h in hs {
+        eprintln!("{:?}", h.join().unwrap());
+    }
+}
